@@ -54,6 +54,8 @@ RULE = ("(template, identifier) pairs: templates from a grammar prefix+go+betwee
         "prefix, separator, suffix or in place of designer), and for 30% of the cases a history of 3-10 configuration operations in the same "
         "process (NewConfig of the default / explicit / blank styles, owner assignments to cfg.NamingFormat, reads, formatting "
         "with a kept configuration, unknown handles); about 10% of the cases (all default-style ones) run in driver processes "
+        "preceded, for 60% of the round-trip identifiers, by ToCamel/ToSnake calls on 2-6 sibling spellings with the same camel form); "
+        "'%', printf verbs, line breaks and tabs occur as affix / joiner text; some cases are "
         "started with one of 8 adversarial environments (34 GOD_*/GOCTL_*/NAMING_* style variables plus every name the sources "
         "pass to os.Getenv/LookupEnv set to valid and invalid templates, LANG/LC_ALL variants, TZ, HOME and working directory "
         "full of decoy config files); identifiers: snake, camel, Pascal, acronyms, repeated/leading/trailing underscores, digit words, "
@@ -232,6 +234,12 @@ def gen_affix(rng, kind):
         return b""
     if r < 0.38:
         return gen_product_word(rng, kind)
+    if r < 0.45:      # printf verbs / percent signs are plain text; line breaks and tabs are plain joiner text
+        if kind == "between":
+            return b(rng.choice(["\n", "\r\n", "\t", "\n\n", "_\n", "\r", "%", "%s", "%d", "%%", "_%d_", "\t_\t", "\v", "\f"]))
+        if kind == "prefix":
+            return b(rng.choice(["%", "%d", "%s", "%%", "100%_", "%s_", "%v", "%!", "%[1]s", "%5d_", "\n", "%\n"]))
+        return b(rng.choice(["%", "%d", "%s", "%%", "_%d", "_%s", "%v", "%!(EXTRA)", ".%d.go", "%+v", "\n", "\r\n", "%\n"]))
     if r < 0.6:
         if kind == "between":
             return b(rng.choice(["_", "-", "#", ".", " ", "__", "_x_", "@", "/"]))
@@ -342,8 +350,20 @@ def h_fmt(i, c):
 H_STYLES = ["", "", "go_designer", "goDesigner", "GO#DESIGNER", "Go-Designer.go", "godesigner", " ", "\t", "\u3000",
             " go_designer", "gO_designer", "designer_go", "x",
             "go_designer.zero", "zero_go_designer", "GoZeroDesigner", "gozero", "go_zero", "goZero", "go_zero_designer",
-            "GO#ZERO#DESIGNER", "goctl_designer", "go_design", "zero", "ZERO_go_designer_Zero"]
+            "GO#ZERO#DESIGNER", "goctl_designer", "go_design", "zero", "ZERO_go_designer_Zero",
+            "go\ndesigner", "Go\r\nDesigner", "go\tdesigner", "GO\n\nDESIGNER", "go_\ndesigner\n", "\ngo\ndesigner",
+            "100%_go_designer", "go_designer_%d", "%s_go_designer", "go_designer%", "%%go_designer", "go%sdesigner"]
 H_IDENTS = ["userCenter", "user_center", "HTTPServer", "a", "", "_x__y"]
+
+
+def siblings_of(rng, c):
+    """other spellings with the same camel form as the identifier c (a str of the round-trip grammar)"""
+    ws = c.split("_")
+    cam = "".join(w[:1].upper() + w[1:] for w in ws)
+    out = [c.replace("_", "__", 1) if "_" in c else c + "_", "_" + c, c + "__", cam, cam[:1].lower() + cam[1:],
+           "_".join(w[:1].upper() + w[1:] for w in ws), "__" + c.replace("_", "___"), ws[0] + "".join(w[:1].upper() + w[1:] for w in ws[1:]) + "_"]
+    rng.shuffle(out)
+    return out[:rng.randint(2, 6)]
 
 
 def gen_history(rng, t, c):
@@ -468,6 +488,8 @@ def generate(rng, tier, n):
         c, ck = gen_content(rng)
         h = gen_history(rng, t, c) if rng.random() < 0.3 else None
         case = mk(t, c, tk, ck, h)
+        if ck.startswith("rt") and rng.random() < 0.6:     # sibling conversions before the round trip
+            case["sib"] = [b(x).hex() for x in siblings_of(rng, c.decode("ascii"))]
         if tk == "cfg-empty" or rng.random() < 0.08:      # started in a process with an adversarial environment
             case["env"] = rng.randrange(1, len(ENV_PROFILES))
             if not h and rng.random() < 0.7:
@@ -565,7 +587,7 @@ def run_binary(cases, name, env_idx=0):
     outp = os.path.join(vlib.WORK, "%s.out.jsonl" % name)
     with open(inp, "w") as f:
         for c in cases:
-            f.write(json.dumps({"t": c["t"], "c": c["c"], "h": c.get("h", [])}, separators=(",", ":")) + "\n")
+            f.write(json.dumps({"t": c["t"], "c": c["c"], "h": c.get("h", []), "sib": c.get("sib", [])}, separators=(",", ":")) + "\n")
     if os.path.exists(outp):
         os.remove(outp)
     env = dict(vlib.GOENV)
@@ -599,7 +621,7 @@ def shrink(v):
     o, _ = run_binary([v["case"]], "C20k", v["case"].get("env", 0))
     if o is not None and 0 in failing([(v["case"], o[0])]):
         return {"case": v["case"], "obs": o[0]}
-    cands = sorted([c for c in _LAST_CASES if c.get("h") or c.get("env")], key=lambda c: len(vlib.canon(c)))[:60]
+    cands = sorted([c for c in _LAST_CASES if c.get("h") or c.get("env") or c.get("sib")], key=lambda c: len(vlib.canon(c)))[:60]
     pairs = []
     for c in cands:
         o, _ = run_binary([c], "C20k", c.get("env", 0))
@@ -666,6 +688,8 @@ def bucket(case, obs):
            "fmt:" + ("ok" if "ok" in f else "err%d" % f["err"] if "err" in f else "PANIC")]
     if any("panic" in obs[k] for k in ("camel", "snake", "rt")):
         out.append("conv:PANIC")
+    if case.get("sib"):
+        out.append("siblings-before-roundtrip")
     if case.get("env"):
         out.append("env:adversarial-%d" % case["env"])
     if case.get("h"):
@@ -718,6 +742,10 @@ def explain(case, obs):
                     "rendering prefix ++ join between (style_go w1 :: map style_designer ws) ++ suffix (c20_render), or a "
                     "template lacking a word / with the words out of order / in mixed casing was not rejected (c20_reject), "
                     "or a round-trip identifier did not come back from ToSnake(ToCamel) (c20_camel_snake_roundtrip)")
+    if case.get("sib"):
+        what.append("before these conversions the same process ran ToCamel/ToSnake on the sibling spellings %r: the round trip must not "
+                    "depend on earlier calls (c20_camel_snake_roundtrip holds for the function, whatever was converted before)"
+                    % [bytes.fromhex(x) for x in case["sib"]])
     if case.get("env"):
         val, loc = ENV_PROFILES[case["env"] % len(ENV_PROFILES) or 1]
         what.append("driver process started with adversarial environment profile %d (%s... = %r, LANG/LC_ALL = %s, cwd/HOME = a directory "
